@@ -21,12 +21,13 @@ META = {
     "coq_targets": ["Props/C15.vo", "Extract/Extract_C15.vo"],
     "technique": "Coq proof (soundness, saturation and completeness of a fuelled upward search inside the finite node universe; arithmetic of range(0, dim, chunk) tilings; product of per-axis tilings) + differential correspondence of the extracted model with the implementation",
     "level_text": "Theorems C15_closure / C15_parent_closed / C15_geff_graph / C15_csv_rows / C15_seg / C15_seg_any_chunks / C15_chunks / C15_chunks_nd hold for every finite digraph (no forest shape assumed), every selection of its nodes, every array shape with non-empty axes and every positive chunk size; the hand-written model is tied to /repo by running the extracted model and the implementation (filter_graph_with_ancestors directly, export_to_csv and export_to_geff through files read back from disk) on the same generated graphs, selections and label arrays and comparing node sets, parent column, edge sets and every pixel. C15_filter_is_generated(_partial): filter_graph_with_ancestors of the model equals, for all arguments, the code translated on every run from the current _utils.py (Gen/SubsetUtils_gen.v; fail-closed translator).",
-    "level_note": "Trusted: Coq kernel, extraction (ExtrOcamlBasic), OCaml driver, Python harness. Modelled not verified: networkx (nx.ancestors = breadth-first upward search, DiGraph.subgraph, predecessor order), numpy (isin/where, basic slicing, C-order flattening), zarr slice assignment and fill value 0, geff.write, pandas DataFrame/to_csv. The model of the chunk loop is pointwise: a pixel covered by some visited block holds the masked label, an uncovered pixel holds the fill value 0; the tiling theorems show every pixel is covered.",
+    "level_note": "Trusted: Coq kernel, extraction (ExtrOcamlBasic), OCaml driver, Python harness. Modelled not verified: networkx (nx.ancestors = breadth-first upward search, DiGraph.subgraph, predecessor order), numpy (isin/where, basic slicing, C-order flattening), zarr slice assignment and fill value 0, geff.write, pandas DataFrame/to_csv. The model of the chunk loop is pointwise: a pixel covered by some visited block holds the masked label, an uncovered pixel holds the fill value 0; the tiling theorems show every pixel is covered. Tied to the source in a second way: filter_graph_with_ancestors is re-translated on every run (harness/translate_pure.py + translate_utils.py, fail closed; sets as duplicate-free lists) and proved equal to the model (Proofs/SubsetTie.v).",
     "design_ref": "DESIGN.md section 9 (C15)",
     "assumptions": ["every edge end point is a node of the graph (always true of a networkx graph) and the selection is a subset of the nodes (nx.ancestors raises NetworkXError otherwise)",
                     "segmentation axes are non-empty; labels equal node ids",
                     "export_to_csv with an EMPTY selection raises KeyError (pandas: no columns in an empty frame) - the empty selection is therefore exercised for filter_graph_with_ancestors and export_to_geff only; counted in stats.csv_empty_selection_raises"],
-    "trusted": ["networkx: predecessor iteration order is passed to the model as the order of the edge list",
+    "trusted": ["translator harness/translate_pure.py + translate_utils.py (closed idiom table; fail closed) with coq/Model/PyRt2.v (sets = duplicate-free lists)",
+                "networkx: predecessor iteration order is passed to the model as the order of the edge list",
                 "zarr/geff/pandas/csv readers used to read the exported files back"],
 }
 
